@@ -6,7 +6,10 @@ import (
 	"context"
 
 	configapi "github.com/onosproject/onos-api/go/onos/config/v2"
+	topoapi "github.com/onosproject/onos-api/go/onos/topo"
 	"github.com/onosproject/onos-config/internal/verifrt"
+	sb "github.com/onosproject/onos-config/pkg/southbound/gnmi"
+	"github.com/onosproject/onos-lib-go/pkg/errors"
 	"github.com/openconfig/gnmi/proto/gnmi"
 )
 
@@ -78,4 +81,115 @@ func VerifC12Subscribe() {
 	srv := &Server{conns: &c19Conns{}}
 	_ = srv.Subscribe(stream)
 	verifrt.Cover("stream-ended")
+}
+
+// c12Name: element names of the Get harness: ordinary names, the gNMI wildcards and bytes that are special in a
+// regular expression (the Get path is turned into one); the pool is case-split so that every pattern is concrete
+func c12Name(tag string, pool int) string {
+	switch verifrt.Fork(tag, pool) {
+	case 0:
+		return "a"
+	case 1:
+		return "bc"
+	case 2:
+		return "*"
+	case 3:
+		return "..."
+	case 4:
+		return "("
+	case 5:
+		return "\\"
+	case 6:
+		return "]"
+	case 7:
+		return "l"
+	case 8:
+		return "a)"
+	case 9:
+		return "[x"
+	case 10:
+		return "+?"
+	case 11:
+		return "{2"
+	}
+	return ""
+}
+
+type c12GetClient struct{ sb.Client }
+
+func (c *c12GetClient) Get(ctx context.Context, r *gnmi.GetRequest) (*gnmi.GetResponse, error) {
+	return &gnmi.GetResponse{Notification: []*gnmi.Notification{{}}}, nil
+}
+
+type c12Conns struct{ sb.ConnManager }
+
+func (m *c12Conns) GetByTarget(ctx context.Context, id topoapi.ID) (sb.Client, error) {
+	if id == "t1" {
+		return &c12GetClient{}, nil
+	}
+	return nil, errors.NewNotFound("no connection")
+}
+
+// VerifC12Get: any decodable GetRequest (bounded shape) against the empty and the populated configuration of t1.
+func VerifC12Get() {
+	pool := verifrt.Param("pool")
+	req := &gnmi.GetRequest{}
+	switch verifrt.Fork("prefix", 3) {
+	case 1:
+		req.Prefix = &gnmi.Path{Target: vGenTarget("prefix.target")}
+	case 2:
+		pn := "a"
+		switch verifrt.Fork("prefix.name", 3) {
+		case 1:
+			pn = "("
+		case 2:
+			pn = "*"
+		}
+		req.Prefix = &gnmi.Path{Target: vGenTarget("prefix.target"), Elem: []*gnmi.PathElem{{Name: pn}}}
+	}
+	np := verifrt.Fork("npaths", 3)
+	if np >= 1 {
+		p := &gnmi.Path{Target: vGenTarget("p0.target")}
+		ne := verifrt.Fork("p0.nelem", 3)
+		for i := 0; i < ne; i++ {
+			e := &gnmi.PathElem{Name: c12Name("p0.e"+vd(i), pool)}
+			nk := 1
+			if i == 0 {
+				nk = verifrt.Param("keys")
+			}
+			switch verifrt.Fork("p0.key"+vd(i), nk) {
+			case 1:
+				e.Key = map[string]string{"k": "("}
+			case 2:
+				e.Key = map[string]string{"k": "1"}
+			case 3:
+				e.Key = map[string]string{"k": "*"}
+			}
+			p.Elem = append(p.Elem, e)
+		}
+		req.Path = append(req.Path, p)
+	}
+	if np >= 2 {
+		// a second entry: empty path or one plain element, its own target
+		p := &gnmi.Path{Target: vGenTarget("p1.target")}
+		p.Elem = []*gnmi.PathElem{{Name: "a"}}
+		req.Path = append(req.Path, p)
+	}
+	enc := verifrt.NondetInt32("encoding")
+	verifrt.Assume(enc >= 0 && enc <= 5)
+	req.Encoding = gnmi.Encoding(enc)
+	ty := verifrt.NondetInt32("type")
+	verifrt.Assume(ty >= 0 && ty <= 3)
+	req.Type = gnmi.GetRequest_DataType(ty)
+	vNoSync = true
+	req.Extension = vGenExtensions("ext")
+	vPopulated = verifrt.Fork("populated", 2) == 1
+	srv := vServer()
+	srv.conns = &c12Conns{}
+	resp, err := srv.Get(context.Background(), req)
+	verifrt.Cover("answered")
+	if err == nil {
+		verifrt.Cover("accepted")
+		verifrt.Assert(resp != nil, "response-or-status")
+	}
 }
